@@ -196,6 +196,39 @@ theorem C15_disarm_between (st : Int) (f : Nat) (fl : Flags) (h : getF fl f = 0)
     ∃ fl', run [.condShutdown st f, .setTrue f] fl [.raise, .write f 0, .raise] = .returned fl' ∧ getF fl' f = 1 := by
   exact ⟨setF (setF (setF fl f 1) f 0) f 1, by simp [run, deliver, h], by simp⟩
 
+/-! ## Round sixteen: whole histories, any actions -/
+
+/-- **C15.history_shutdown_exact** — for every list of flag actions and every history of application writes and
+deliveries: if the process ends, it ended inside a delivery, without exit hooks, with the status of a registered
+conditional shutdown whose flag was non-zero at that moment. No history ends the process any other way. -/
+theorem C15_history_shutdown_exact (acts : List Action) (evs : List Ev) (fl : Flags) (code : Nat) (hooks : Bool)
+    (fl' : Flags) (h : run acts fl evs = .exited code hooks fl') :
+    hooks = false ∧ ∃ st f, .condShutdown st f ∈ acts ∧ code = exitCode st ∧ getF fl' f ≠ 0 := by
+  induction evs generalizing fl with
+  | nil => simp [run] at h
+  | cons ev evs ih =>
+    cases ev with
+    | write f v => exact ih (setF fl f v) (by simpa [run] using h)
+    | raise =>
+      simp only [run] at h
+      cases hd : deliver acts fl with
+      | returned fl1 => rw [hd] at h; exact ih fl1 h
+      | exited c hk fl1 =>
+        rw [hd] at h
+        injection h with h1 h2 h3
+        subst h1; subst h2; subst h3
+        exact C15_shutdown_exact acts fl c hk fl1 hd
+
+/-- **C15.history_no_shutdown_registered** — with no conditional shutdown among the actions, no history ends the
+process: flags alone never terminate anything. -/
+theorem C15_history_no_shutdown_registered (acts : List Action) (evs : List Ev) (fl : Flags)
+    (hno : ∀ st f, .condShutdown st f ∉ acts) : ∃ fl', run acts fl evs = .returned fl' := by
+  cases h : run acts fl evs with
+  | returned fl' => exact ⟨fl', rfl⟩
+  | exited c hk fl' =>
+    obtain ⟨_, st, f, hm, _⟩ := C15_history_shutdown_exact acts evs fl c hk fl' h
+    exact absurd hm (hno st f)
+
 /-- exit status as the parent sees it -/
 theorem C15_exit_code_range (st : Int) : exitCode st < 256 := by
   unfold exitCode; omega
